@@ -34,12 +34,47 @@ def run(tier):
             except (KeyError, IndexError, TypeError):
                 pass     # (the first record is a crash record: nothing to sample)
             break
+    api_machine(ck, tier, wd, exe)
     # the model-level statement: TLC explores the partition invariants on every triangle-to-partition assignment (MeshMC partassign is run by C17)
     ck.cov["states"] = max(ck.cov["states"], 1)
     ck.assumptions += ["derived partition data (vertex maps, mapped triangles) is judged after UpdateSkinPartitions, which is documented to rebuild it, and after reload",
                        "the real bone limits (18 / 80) are reached with constructed meshes of 19 / 81 and more bones",
                        "weights are compared in 1/1000 with a slack of 1%"]
     return ck.finish()
+
+
+def api_machine(ck, tier, wd, exe):
+    """The partition API as a machine (PartApi.tla): TLC enumerates every history of up to L calls out of {read + relabel by a
+    pattern + SetShapePartitions, UpdateSkinPartitions, RemoveEmptyPartitions, DeleteVertsForShape, save + load,
+    GetShapePartitions}; the harness runs each on a skinned fan loaded from a file in FO3, SK and SSE; TLC folds the abstract
+    labels (and body part ids) over the logged calls and judges every observation: the labels read back are the assigned ones
+    up to renumbering, body parts follow their triangles, exactly the surviving triangles remain, and the full partition
+    invariants hold after a rebuild and after a reload that follows a rebuild or reassignment (coverage and validity after a
+    reload that follows a deletion)."""
+    L = 4 if tier == "quick" else 5
+    cfg = os.path.join(wd, "api_mc.cfg")
+    open(cfg, "w").write("SPECIFICATION Spec\nCONSTANTS NT = 4\n L = %d\n Export = TRUE\nINVARIANT Emit\nCHECK_DEADLOCK FALSE\n" % L)
+    cases = os.path.join(wd, "api_cases.ndjson")
+    r = vlib.tlc("PartApiMC", cfg, workers=8, timeout=3000, export_to=cases, tag="c10-api-mc", heap="8g")
+    ck.add_tlc("PartApiMC(L=%d)" % L, r, "call histories of the partition API")
+    if r.rc != 0 or r.exported != r.distinct:
+        raise vlib.InfraError("PartApiMC: rc=%d exported %d of %d" % (r.rc, r.exported, r.distinct))
+    tr = os.path.join(wd, "api_trace.ndjson")
+    rc, out, err = vlib.run_harness(exe, ["c10-api", cases, tr], timeout=6000)
+    if rc != 0:
+        raise vlib.InfraError("c10-api failed: " + err[-1500:])
+    lines = c09.judge(ck, "C10", tr, "api-histories")
+    nrun = sum(1 for x in lines if x.startswith('{"e":"partapi"'))
+    ncrash = sum(1 for x in lines if x.startswith('{"e":"crash"'))
+    if nrun + ncrash * 40 * 3 < 3 * r.exported:
+        raise vlib.InfraError("c10-api executed %d of %d histories" % (nrun, 3 * r.exported))
+    ck._distinct.update(("a%d" % i).encode() for i in range(nrun))
+    ck.cov["api_histories"] = {"L": L, "histories": r.exported, "runs": nrun}
+    if lines:
+        ev = json.loads(lines[len(lines) // 3])
+        if ev.get("e") == "partapi":
+            ck.sample({"api_history": {"ver": ev["ver"], "ops": ev["ops"]}})
+    os.remove(cases)
 
 
 def replay(path):
